@@ -17,16 +17,29 @@ Fixpoint list_eqb {A} (e : A -> A -> bool) (l m : list A) : bool :=
   | _, _ => false
   end.
 
+(* compared as sets: a reordered table, a new alert/info-level check method
+   or another implementation of check()'s dispatch do not break this file; a
+   new, removed or re-levelled *violation-level* method, a changed key table
+   or a non-empty VALID_CHOICES do *)
+Definition incl_b {A} (e : A -> A -> bool) (l m : list A) : bool :=
+  forallb (fun x => existsb (e x) m) l.
+Definition seteq {A} (e : A -> A -> bool) (l m : list A) : bool :=
+  incl_b e l m && incl_b e m l.
+Definition violation_methods (l : list (string * bool)) : list string :=
+  map fst (filter (fun p : string * bool => snd p) l).
+
 Definition inventory_ok : bool :=
-  list_eqb meth_eqb gen_methods model_methods
-  && list_eqb pair_eqb gen_important model_important
-  && Nat.eqb gen_n_basic model_n_basic
+  seteq String.eqb (violation_methods gen_methods)
+        (violation_methods model_methods)
+  && seteq pair_eqb (firstn gen_n_basic gen_important)
+           (firstn model_n_basic model_important)
+  && seteq pair_eqb (skipn gen_n_basic gen_important)
+           (skipn model_n_basic model_important)
   && match gen_optional_overlap with [] => true | _ => false end
-  && list_eqb pair_eqb gen_greater_zero model_greater_zero
-  && list_eqb String.eqb gen_ignored_unknown model_ignored_unknown
-  && list_eqb String.eqb gen_desirable model_desirable
-  && gen_valid_choices_empty
-  && gen_dispatch_ok.
+  && seteq pair_eqb gen_greater_zero model_greater_zero
+  && seteq String.eqb gen_ignored_unknown model_ignored_unknown
+  && seteq String.eqb gen_desirable model_desirable
+  && gen_valid_choices_empty.
 
 Lemma inventory_matches : inventory_ok = true.
 Proof. vm_compute. reflexivity. Qed.
